@@ -48,6 +48,10 @@ class ExprDoc:
                     kind = "repoint-local"
                 elif profile == "dynamic" and t in (ge.SLIST, ge.STR, ge.BOOL) and rng.random() < 0.1:
                     kind = "list-build"
+                elif profile == "dynamic" and not kinds and t in (ge.INT, ge.STR, ge.BOOL) and rng.random() < 0.06:
+                    # (entered at the later clause this program reads a not yet assigned variable - undefined, never executed; the
+                    # documents of C06, which demand definite assignment of every local, do not use it)
+                    kind = "switch-fallthrough-let"
                 g.has_void_path = False
                 prog = g.program(t, kind)
                 src = ge.print_program(prog, rng)
